@@ -10,14 +10,16 @@ What is modelled
   `onStartup`, executeHookOnEvent over watchEvent, includeSnapshotsFrom names must resolve to exactly one kubernetes
   binding, group members get the snapshots of all kubernetes bindings of the group: own list first, then the group's
   bindings in declared order, no duplicates), `Faults` are the single-fault mutation classes of the statement.
-  TLC enumerates the stratified document domain (<= 2 bindings per kind; MC_thorough.cfg exhaustive, MC_quick.cfg a
-  seeded random subset per stratum), checks DomainWellFormed / FaithfulLoad / Defaults / FaultRejected / GroupSnapshots
+  TLC enumerates the stratified document domain (<= 2 bindings per kind: scalar options of one and of two kubernetes
+  bindings, selectors, names x groups x includes, schedules/onStartup/settings, webhook bindings, fault base documents;
+  MC_thorough.cfg exhaustive, MC_quick.cfg a seeded random subset of 1000 documents per stratum + all faults), checks DomainWellFormed / FaithfulLoad / Defaults / FaultRejected / GroupSnapshots
   on every case and prints every case with the expected result.
 
 What the oracle demands (real code, harness/cmd/hookconfig)
   every case is rendered as YAML (seeded style: plain or quoted scalars, block or flow leaf sequences, key order) and
   as JSON and loaded with the real LoadAndValidate:
-    * no panic, the call returns (a hang is a failure: the document is neither rejected nor loaded),
+    * no panic, the call returns (a hang - 3 s of CPU time burnt inside one call - is a failure: the document is
+      neither rejected nor loaded),
     * YAML and JSON give the same verdict and the same projected configuration,
     * expected "reject" (faults, unknown / ambiguous snapshot names)  =>  an error,
     * expected configuration  =>  no error and the projection (ids, debug names, labels, pointers erased) equals TLC's record.
@@ -113,6 +115,8 @@ def _report(ctx, case, r):
     if sig == "HARNESS":
         raise Infra("harness error: " + r.get("detail", "")[-1500:])
     replay = {"case": case, "yaml": r.get("yaml"), "json": r.get("json"), "input_b64": r.get("input_b64")}
+    if sig in ("C10/hang", "C10/crash"):     # name the input class
+        sig += "/" + ((case["fault"] if case["fault"] != "none" else case["why"]) if case else "bytes")
     if sig.startswith("C10/"):
         ctx.fail(sig, r.get("detail", ""), replay)
     else:
@@ -177,8 +181,13 @@ def check_c10(ctx):
         if c["fault"] != "none":
             by_fault[c["fault"]] = by_fault.get(c["fault"], 0) + 1
         by_why[c["why"]] = by_why.get(c["why"], 0) + 1
-    if not by_fault or "ok" not in by_why:
-        raise Infra("vacuous case set: %s" % by_stratum)
+    grouped = sum(1 for c in cases if c["why"] == "ok" and
+                  any(len(b["include"]) > len(d.get("includeSnapshotsFrom", [])) for sect, eff in
+                      (("kubernetes", "kubernetes"), ("schedule", "schedules"), ("kubernetesValidating", "validating"),
+                       ("kubernetesMutating", "mutating"), ("kubernetesCustomResourceConversion", "conversion"))
+                      for d, b in zip(c["doc"].get(sect, []), c["expect"][eff])))
+    if not by_fault or "ok" not in by_why or not grouped:
+        raise Infra("vacuous case set: %s, %d cases with group-derived snapshots" % (by_stratum, grouped))
 
     n_fuzz = ctx.pick(6000, 60000)
     with ThreadPoolExecutor(max_workers=2) as ex:
@@ -220,6 +229,7 @@ def check_c10(ctx):
     ctx.cov["evaluations"] = 2 * len(cases) + runs
     ctx.cov["distinct_nontrivial"] = len(distinct)
     ctx.cov["cases_by_stratum"] = by_stratum
+    ctx.cov["loadable_cases_with_group_derived_snapshots"] = grouped
     ctx.cov["fault_classes"] = len(by_fault)
     ctx.cov["fault_cases"] = sum(by_fault.values())
     ctx.cov["expected_reject_reasons"] = len([k for k in by_why if k != "ok"])
@@ -248,7 +258,7 @@ def check_c10(ctx):
         "catalogues stand for the classes 'valid/invalid crontab, label key, label value, apiVersion, duration, hook name' (a few concrete members each)",
         "the projection erases monitor ids, debug names, schedule ids, log/metric labels and compares watch events as a set in canonical order",
         "YAML renderings are produced by the harness' own emitter and verified against gopkg.in/yaml.v3 before use",
-        "a load that does not return within 4 s is a hang"]
+        "a load is a hang when the harness process has burnt 3 s of CPU time inside one call (or nothing returned for 150 s); wall-clock time alone is not used"]
     vlib.finish(ctx, rule="cases: TLC enumeration of spec/HookConfig (%s, seed-dependent subset in quick); each case = YAML + JSON load on the real "
                           "LoadAndValidate compared with TLC's Effective(); distinct_nontrivial = distinct documents that declare at least one "
                           "optional field or are expected to be rejected; byte_level = exploration with a no-panic/returns oracle only" % cfg)
